@@ -15,7 +15,8 @@ CLAIMS = {
             'complete over the finite abstraction (booleans, orderings, provenance); "inside a region" is the abstract '
             'outcome of containsPoint'),
     'C03': ('abstract interpretation of exitExcludedRegion / entering paths with numbers in polynomial normal form: '
-            'composition, Z ordering, each word equals the firmware-side logical value of the tracked position; '
+            'composition, Z ordering, each word equals the firmware-side logical value of the tracked position; on every move '
+            'path that closes an episode the generated travel goes to the position tracked at the end of the command; '
             'writer census of the episode flag',
             'real arithmetic; firmware convention logical*unit+offsets; relative-mode exit is a recorded known finding'),
     'C04': ('typestate analysis: the abstract paths of the handlers are the transition relation of a finite machine over '
@@ -49,7 +50,8 @@ CLAIMS = {
             'real arithmetic; that corner/extreme-point tests imply containment of the whole inner region (convexity) is not decided'),
     'C18': ('regex automata over a 16-class alphabet (totality, progress, capture-group tiling of the line regex) and '
             'abstract interpretation of GcodeParser.parse / parseLines / fullText / stringify / validate with symbolic match '
-            'objects (freshness of every reader attribute, fullText = tiling groups in order, offset chaining, checksum text agreement)',
+            'objects (freshness of every reader attribute, fullText = tiling groups in order, offset chaining, checksum text agreement, '
+            'checksum bookkeeping on every path whatever the checksum value)',
             'decides losslessness ingredients and checksum agreement; idempotence of normalisation as a whole is not decided; '
             'semantics of re as in re._parser'),
     'C19': ('regex language inclusion both ways against the RS274 number grammar, tokeniser progress automaton, abstract '
@@ -69,7 +71,8 @@ CLAIMS = {
             'of the region list and of region geometry fields',
             'soundness of containsRegion itself is C17; regions reachable only through the state list'),
     'C13': ('abstract interpretation of every API command and event: id-uniqueness guard, access check first, '
-            'mutation/notification pairing on every path, payload shape agreement between notification and GET',
+            'mutation/notification pairing on every path, payload shape agreement between notification and GET, one id relation '
+            '(raw ==) shared by the uniqueness guard and the selectors of replace/delete',
             'ids compared with ==; serialisation by OctoPrint trusted'),
     'C14': ('abstract interpretation of handleAtCommand over symbolic configured actions (action mapping, exit sequence '
             'sent in order, streaming/no-match effect free) and of the motion handlers with exclusion disabled '
